@@ -133,10 +133,18 @@ def run_case(cfg: str, case: dict[str, Any], seed: int, tmp: str, controlled: bo
                         if act["tell"]:
                             study.tell(t, float(th))
                     elif act["a"] == "enqueue":
-                        study.enqueue_trial(act["params"], user_attrs={"tag": act["tag"]})
+                        # the caller keeps and re-uses its dicts: what was enqueued must not follow later edits
+                        p_in, u_in = dict(act["params"]), {"tag": act["tag"]}
+                        study.enqueue_trial(p_in, user_attrs=u_in)
+                        p_in["x"] = 0.987654321
+                        p_in["c"] = "a" if p_in.get("c") == "b" else "b"
+                        u_in["tag"] = -1
                         events.append({"a": "enq", "th": th, "inv": inv, "ret": now(), "tag": act["tag"], "params": act["params"]})
                     else:
-                        study.add_trial(create_trial(state=TrialState.WAITING, system_attrs={"fixed_params": act["params"]}, user_attrs={"tag": act["tag"]}))
+                        p_in, u_in = dict(act["params"]), {"tag": act["tag"]}
+                        study.add_trial(create_trial(state=TrialState.WAITING, system_attrs={"fixed_params": p_in}, user_attrs=u_in))
+                        p_in["x"] = 0.987654321
+                        u_in["tag"] = -1
                         events.append({"a": "enq", "th": th, "inv": inv, "ret": now(), "tag": act["tag"], "params": act["params"]})
             return f
 
@@ -296,6 +304,47 @@ def explore(chk: core.Check, cfgs: list[str], n: int, controlled: bool, tag: str
                 chk.extra.setdefault("infra_notes", []).append(rec["why"][:200])
 
 
+def race_burst(chk: core.Check, cfgs: list[str], rounds: int) -> None:
+    """Many threads claim one WAITING trial at the same instant (barrier), many times: exactly one True."""
+    from optuna.study import StudyDirection
+
+    for cfg in cfgs:
+        h = fleet.make(cfg, chk.tmp)
+        try:
+            st = h.storage
+            sid = st.create_new_study([StudyDirection.MINIMIZE], "burst")
+            bad = None
+            for rnd in range(rounds):
+                tid = st.create_new_trial(sid, create_trial(state=TrialState.WAITING, system_attrs={"fixed_params": {"x": 0.5}}))
+                n = 4
+                bar = threading.Barrier(n)
+                res: list[Any] = []
+
+                def claim() -> None:
+                    bar.wait()
+                    try:
+                        res.append(bool(st.set_trial_state_values(tid, TrialState.RUNNING)))
+                    except Exception as e:  # noqa: BLE001
+                        res.append("raise:" + type(e).__name__)
+
+                ths = [threading.Thread(target=claim) for _ in range(n)]
+                for t in ths:
+                    t.start()
+                for t in ths:
+                    t.join(60)
+                chk.case({"part": "burst", "cfg": cfg, "round": rnd, "answers": sorted(map(str, res))}, nontrivial=True)
+                if res.count(True) != 1 or any(isinstance(x, str) for x in res):
+                    bad = (rnd, res)
+                    break
+            chk.count("burst:" + cfg, rounds if bad is None else bad[0] + 1)
+            if bad is not None:
+                chk.violation({"backend": cfg, "kind": "queue", "controlled": False},
+                              {"backend": cfg, "burst_round": bad[0], "answers": [str(x) for x in bad[1]]},
+                              "%s: 4 threads claimed one WAITING trial at once and the answers were %s (exactly one True expected)" % (cfg, bad[1]))
+        finally:
+            h.close()
+
+
 def search(chk: core.Check) -> None:
     chk.search_log.append("searching more schedules for a doubly claimed or skipped queued trial")
     explore(chk, ["mem", "journal-symlink"], 400, True, tag="-search")
@@ -308,6 +357,7 @@ def main(chk: core.Check) -> int:
     quick = chk.tier == "quick"
     explore(chk, ["mem", "journal-symlink", "journal-open"], 120 if quick else 2500, True)
     explore(chk, ["rdb", "cached", "grpc(mem)", "grpc(rdb)", "grpc(journal)"], 16 if quick else 400, False, tag="-free")
+    race_burst(chk, ["rdb", "cached", "mem", "journal-symlink", "grpc(rdb)"], 150 if quick else 3000)
     chk.assumptions += ["fairness of the OS scheduler is not modelled: 'none is skipped' is checked as stated in DESIGN (an ask() that began after a trial was queued never creates a new trial while that one stays WAITING)",
                         "preemption points are source lines of optuna/{storages,study,trial}",
                         "suggest precedence (fixed params win) is proved in C10's model; here it is observed on the implementation"]
